@@ -368,17 +368,21 @@ Section DESolve.
     (Z.to_nat (mi + 3) <= S f + ehlen N _ _ A s c)%nat ->
     snd (solve N inf _ _ A (S f) s c is dflt) = true.
   Proof.
-    apply solve_terminates.
+    intros f s c is dflt mi mf Hl Hmi Hfuel.
+    refine (solve_terminates N inf _ _ A (fun _ => True) (fun _ => True) _ _ _ _ _ _ f s c is dflt mi mf Logic.I _ Logic.I Hl Hmi Hfuel).
     - (* progress *)
-      intros s c i. cbv zeta. cbn [a_nested a_step de_algo].
-      destruct (de_step_one_record s c i) as [b Hb]. rewrite Hb.
-      destruct (run_prog_cfg N inf false _ (de_step N inf s c i) s) as (_ & _ & Hs). cbv zeta in Hs.
+      intros s0 c0 i _ _. cbv zeta. split; [|exact Logic.I]. cbn [a_nested a_step de_algo].
+      destruct (de_step_one_record s0 c0 i) as [b Hb]. rewrite Hb.
+      destruct (run_prog_cfg N inf false _ (de_step N inf s0 c0 i) s0) as (_ & _ & Hs). cbv zeta in Hs.
       unfold ehlen, energy_history. cbn [stepmon set_stepmon a_ehist_extra de_algo]. rewrite Hs.
       rewrite !app_nil_r, map_app, app_length. simpl. lia.
     - (* finalize *)
-      intros s c. cbn [a_finalize de_algo fst snd]. unfold ehlen, energy_history. cbn [stepmon set_stepmon].
-      rewrite (app_nil_r (stepmon N s)). apply Nat.le_refl.
-    - intros s c i. reflexivity.
-    - intros c. simpl. lia.
+      intros s0 c0. cbn [a_finalize de_algo fst snd]. unfold ehlen, energy_history. cbn [stepmon set_stepmon].
+      rewrite (app_nil_r (stepmon N s0)). apply Nat.le_refl.
+    - intros s0 c0 i. reflexivity.
+    - intros; exact Logic.I.
+    - intros; exact Logic.I.
+    - intros c0. simpl. lia.
+    - apply Forall_forall. intros; exact Logic.I.
   Qed.
 End DESolve.
